@@ -1,6 +1,6 @@
 SPECIFICATION Spec
 CONSTANTS N = 2
-  Walkers = {"resolve", "length", "xref", "pages", "outline", "nametree", "filters", "decode", "fields", "parents", "objwalk"}
+  Walkers = {"resolve", "length", "xref", "pages", "outline", "nametree", "filters", "decode", "fields", "parents", "objwalk", "navnode"}
   MaxDepth = 4
   MaxChain = 3
   StackCap = 12
@@ -13,6 +13,7 @@ CONSTANTS N = 2
   G_WALKDEPTH = FALSE
   G_FILTERTOP = TRUE
   FSTREAM = TRUE
+  G_NAVACC = TRUE
 INVARIANTS NoOverflow WorkBounded ChainBounded
 PROPERTY Termination
 CHECK_DEADLOCK FALSE
